@@ -14,6 +14,14 @@ import SlogModel.Gen.Facts
                           are exactly the lines, once each, in order.
   * `C08_continuation`  : a continuation line is attached to the record it follows when no flush
                           separates them.
+  In `Props/C08Flush.lean`:
+  * `C08_timeout_means_idle`, `C08_idle_ticks_after_pause` : a flush after a read timeout follows an
+                          idle period of at least the flush interval `m` (the lazily renewed read
+                          deadline of `NetConnWrapper` is never less than `m` ahead when a read is
+                          entered).
+  * `C08_renewal_flushes_bounded` : the only other flushes — "for deadline update", which can cut a
+                          multi-line record although the sender did not pause — number at most one
+                          per flush interval of connection lifetime plus one (`f·m ≤ lifetime + m`).
 -/
 
 namespace C08
